@@ -52,14 +52,16 @@ Print Assumptions fixed_introduced_algebra.
 (* ---- the property sentence. Section variables of Proofs.v appear as arguments: read/write are
    the manifest ReadWriter, analyse is resolution + vulnerability matching. Premises: analyse is
    a function of the requirement map and lists no ID twice; the writer wrote exactly the updates
-   of the chosen patch (C13: write_read_exact); candidates are patched clones (roundtrip_domain). *)
+   of the chosen patch (C13: write_read_exact); candidates are patched clones (roundtrip_domain).
+   Any ignore list, any explicit list (since fix ad14cb22 ExplicitVulns is a filter inside MatchVuln
+   and the options are no longer changed by the first analysis; before it the statement was false
+   for explicit lists, see KNOWN_FINDINGS.d/C12.json, status fixed). *)
 Theorem reanalysis_matches_report :
   forall (File : Type) (read : File -> list req) (write : File -> list update -> File)
          (analyse : list req -> list fvuln) (mgmt : rtype),
   (forall a b, same_map a b -> forall v, In v (analyse a) <-> In v (analyse b)) ->
   (forall a, NoDup (map f_id (analyse a))) ->
   forall o f cands max ni p,
-  o_explicit o = [] ->
   let rep := fix_vulns File read write analyse mgmt o f cands max ni in
   rep_patches rep = [p] ->
   same_map (read (write f (p_updates p))) (apply_updates (p_updates p) (read f)) ->
@@ -68,44 +70,6 @@ Theorem reanalysis_matches_report :
             (In i (map o_id (rep_vulns rep)) /\ ~ In i (fixed_ids p)) \/ In i (idsv (p_introduced p)).
 Proof. exact reanalysis_lemma. Qed.
 Print Assumptions reanalysis_matches_report.
-
-(* with an explicit list: on the domain D = explicit_consistent (a boolean, evaluated by the
-   check on every case): the options as the first analysis left them and as a fresh analysis of
-   the written manifest makes them accept the same vulnerabilities of the written manifest *)
-Theorem reanalysis_matches_report_on_D :
-  forall (File : Type) (read : File -> list req) (write : File -> list update -> File)
-         (analyse : list req -> list fvuln) (mgmt : rtype),
-  (forall a b, same_map a b -> forall v, In v (analyse a) <-> In v (analyse b)) ->
-  (forall a, NoDup (map f_id (analyse a))) ->
-  forall o f cands max ni p,
-  let rep := fix_vulns File read write analyse mgmt o f cands max ni in
-  rep_patches rep = [p] ->
-  same_map (read (write f (p_updates p))) (apply_updates (p_updates p) (read f)) ->
-  (forall c, In c cands -> roundtrip_domain mgmt (read f) c = true) ->
-  explicit_consistent o (analyse (read f)) (analyse (read (rep_file rep))) = true ->
-  forall i, In i (fresh_ids File read analyse o (rep_file rep)) <->
-            (In i (map o_id (rep_vulns rep)) /\ ~ In i (fixed_ids p)) \/ In i (idsv (p_introduced p)).
-Proof. exact reanalysis_on_D_lemma. Qed.
-Print Assumptions reanalysis_matches_report_on_D.
-
-(* and outside D the sentence is false in the model (and on the implementation, see the known
-   finding explicit-list-hides-introduced): ResolveGraphVulns appends the non-listed IDs found in
-   the ORIGINAL manifest to IgnoreVulns; a vulnerability that only the patched manifest has is
-   not among them, so the report lists it as introduced, while a fresh analysis of the written
-   manifest ignores it because it is not on the explicit list. *)
-Theorem explicit_list_reanalysis_refuted :
-  exists (o : ropts) (f : list req) (cands : list (list req)) (p : patch),
-    o_explicit o <> [] /\
-    (forall a b, same_map a b -> forall v, In v (w_analyse a) <-> In v (w_analyse b)) /\
-    (forall a, NoDup (map f_id (w_analyse a))) /\
-    let rep := fix_vulns (list req) w_read w_write w_analyse w_mgmt o f cands 1 false in
-    rep_patches rep = [p] /\
-    same_map (w_read (w_write f (p_updates p))) (apply_updates (p_updates p) (w_read f)) /\
-    (forall c, In c cands -> roundtrip_domain w_mgmt (w_read f) c = true) /\
-    ~ (forall i, In i (fresh_ids (list req) w_read w_analyse o (rep_file rep)) <->
-                 (In i (map o_id (rep_vulns rep)) /\ ~ In i (fixed_ids p)) \/ In i (idsv (p_introduced p))).
-Proof. exact explicit_list_reanalysis_refuted_lemma. Qed.
-Print Assumptions explicit_list_reanalysis_refuted.
 
 (* ---- no patch: the requirements of the written manifest are the requirements that were read *)
 Theorem no_patch_no_change :
@@ -173,13 +137,21 @@ Example reanalysis_nonvacuous :
   = ([[10]], [[20]], [10], [false], [20], true).
 Proof. vm_compute. reflexivity. Qed.
 
-(* the same world with the explicit list [10]: same report, but the fresh analysis reports nothing *)
+(* the same world with the explicit list [10] (the former counterexample): vulnerability 20 is not
+   on the list, so it is neither reported as introduced nor found by the fresh analysis *)
 Example explicit_list_world :
   let rep := fix_vulns (list req) w_read w_write w_analyse w_mgmt (w_opts [10]) w_file w_cands 1 false in
   (map fixed_ids (rep_patches rep), map (fun p => idsv (p_introduced p)) (rep_patches rep),
-   fresh_ids (list req) w_read w_analyse (w_opts [10]) (rep_file rep),
-   explicit_consistent (w_opts [10]) (w_analyse (w_read w_file)) (w_analyse (w_read (rep_file rep))))
-  = ([[10]], [[20]], [], false).
+   map o_id (rep_vulns rep), fresh_ids (list req) w_read w_analyse (w_opts [10]) (rep_file rep))
+  = ([[10]], [[]], [10], []).
+Proof. vm_compute. reflexivity. Qed.
+
+(* ... and with the explicit list [10; 20] it is both *)
+Example explicit_list_world_both :
+  let rep := fix_vulns (list req) w_read w_write w_analyse w_mgmt (w_opts [10; 20]) w_file w_cands 1 false in
+  (map fixed_ids (rep_patches rep), map (fun p => idsv (p_introduced p)) (rep_patches rep),
+   fresh_ids (list req) w_read w_analyse (w_opts [10; 20]) (rep_file rep))
+  = ([[10]], [[20]], [20]).
 Proof. vm_compute. reflexivity. Qed.
 
 (* ConstructPatches on a manifest with a changed requirement, an unchanged one and an added
